@@ -360,20 +360,27 @@ class Complement(Constructor[CombinatorialClassType, CombinatorialObjectType]):
     def get_terms(
         self, parent_terms: Callable[[int], Terms], subterms: SubTerms, n: int
     ) -> Terms:
-        parent_terms_mapped: Terms = Counter()
+        # We subtract the other children from the total with the parameters of the
+        # original parent, and only then translate what is left, which all belongs
+        # to the child being counted, into its parameters. (The translation is only
+        # defined for objects of that child: parameters it merges may differ on the
+        # objects of the other children.)
+        remaining: Terms = Counter()
         for param, value in subterms[0](n).items():
             if value:
-                parent_terms_mapped[self._parent_param_map(param)] += value
+                remaining[param] += value
         children_terms = subterms[1:]
         for child_terms, param_map in zip(children_terms, self._children_param_maps):
             # we subtract from total
             for param, value in child_terms(n).items():
-                mapped_param = self._parent_param_map(param_map(param))
-                parent_terms_mapped[mapped_param] -= value
-                assert parent_terms_mapped[mapped_param] >= 0
-                if parent_terms_mapped[mapped_param] == 0:
-                    parent_terms_mapped.pop(mapped_param)
-
+                mapped_param = param_map(param)
+                remaining[mapped_param] -= value
+                assert remaining[mapped_param] >= 0
+                if remaining[mapped_param] == 0:
+                    remaining.pop(mapped_param)
+        parent_terms_mapped: Terms = Counter()
+        for param, value in remaining.items():
+            parent_terms_mapped[self._parent_param_map(param)] += value
         return parent_terms_mapped
 
     def get_sub_objects(
